@@ -3,7 +3,7 @@
 (* Bounded configurations of Engine.tla: the menus the environment chooses *)
 (* from, and the REPLAY emission for the harness.                          *)
 (***************************************************************************)
-EXTENDS Engine, Universe, Json
+EXTENDS Engine, Universe, Json, Randomization
 
 A == TextV(<<97>>)
 B == TextV(<<98>>)
@@ -507,6 +507,55 @@ UnionMenu == SelectMenu \cup FunctionMenu \cup DistinctMenu \cup LimitMenu \cup 
 JoinUnionMenu == JoinMenu \cup LimitJoinMenu
 LinesUnion == {KV(A, IntV(1)), KV(A, IntV(2)), KV(B, IntV(1)), KV(B, IntV(3)), KV(A, IntV(-1)), KV(B, IntV(31)), KV(A, IntV(32)), KV(Null, IntV(2)), KV(A, Null), KV(Null, Null), KV(AB, IntV(10)),
                KV(B, IntV(0)), Garbage, Empty, Near}
+
+\* ---- generated statements (configurations gen / gen-join) ----------------------------------------------------------------------------------
+\* Every clause is drawn independently from a pool (TLC's RandomElement / RandomSubset, reproducible under -seed), so that features meet in
+\* combinations no hand-written menu lists: projections x WHERE x DISTINCT x LIMIT x GROUP BY keys (plain, two, expressions that are not shown)
+\* x one to three aggregates (plain or inside a wrapper) x HAVING (selected / unselected aggregates, key conditions) x INNER / OUTER JOIN.
+\* GenMenu(n, j) is a set of n such statements (j: over the join); the random long inputs of the lazy configuration run over it.
+RECURSIVE SetSeq(_)
+SetSeq(S) == IF S = {} THEN <<>> ELSE LET x == CHOOSE y \in S : TRUE IN <<x>> \o SetSeq(S \ {x})
+GenExprs == {K, V, Arith("+", V, One), Arith("*", V, Two), Col("input"), CaseE(<<<<VPos, K>>>>, Lit(TextV(<<122>>))), Call("length", <<K>>), Col("t.v"), NegE(V), Cast(V, "text"),
+             Call("upper", <<K>>), Lit(IntV(5)), Call("abs", <<V>>), IsE(FALSE, K, Lit(Null)), CmpE("=", K, Lit(A)), Arith("/", Lit(IntV(6)), V), Lit(Null), Arith("-", V, V)}
+GenExprsJ == {W, Col("u.k"), Col("t.k"), Arith("+", V, W), Col("u.w"), CmpE("=", V, W), CaseE(<<<<IsE(TRUE, W, Lit(Null)), Lit(IntV(-1))>>>>, W)}
+GenWheres == {VPos, CmpE("=", K, Lit(A)), IsE(TRUE, V, Lit(Null)), BoolE("or", IsE(FALSE, K, Lit(Null)), CmpE(">", V, One)), NotE(CmpE("=", K, Lit(B))),
+              InE(FALSE, V, <<One, Two>>), InE(TRUE, V, <<One, Lit(Null)>>), CmpE("<", Arith("/", Lit(IntV(4)), V), Two), CmpE("!=", V, One)}
+GenWheresJ == {CmpE(">", W, Zero), IsE(FALSE, W, Lit(Null)), CmpE("=", V, W), IsE(TRUE, W, Lit(Null))}
+GenLimits == {0, 1, 2, 3}
+CNames == <<"c1", "c2", "c3">>
+GenWhere(j) == IF RandomElement(1..10) <= 4 THEN NoE ELSE IF j # "none" /\ RandomElement(1..10) <= 4 THEN RandomElement(GenWheresJ) ELSE RandomElement(GenWheres)
+GenLimit(j) == IF RandomElement(1..10) <= 6 THEN NoLimit ELSE RandomElement(GenLimits)      \* (a parameter: TLC evaluates a definition without parameters only once)
+GenSelect(j) ==
+  IF RandomElement(1..10) <= 2 THEN Star(GenWhere(j), RandomElement(BOOLEAN), GenLimit(j), j)
+  ELSE LET n == RandomElement(1..3)
+           ex(i) == IF j # "none" /\ RandomElement(1..10) <= 4 THEN RandomElement(GenExprsJ) ELSE RandomElement(GenExprs)
+           one(i) == LET e == ex(i) IN P(e, IF e.op = "col" \/ RandomElement(1..10) <= 6 THEN CNames[i] ELSE "")
+       IN Sel([i \in 1..n |-> one(i)], GenWhere(j), RandomElement(BOOLEAN), GenLimit(j), j)
+WrapPool == {Arith("*", Col("$value"), Two), Arith("+", One, Col("$value")), NegE(Col("$value")), Arith("-", Lit(IntV(100)), Arith("*", Col("$value"), Lit(IntV(10))))}
+NumericAggs == {"count_star", "count", "count_distinct", "sum", "min", "max"}
+GenAggPool(j) == AllAggs \cup (IF j = "none" THEN {} ELSE {ItE("sum", W, "sw"), ItE("max", W, "whi"), ItC("count", "w", "cw"), ItE("min", Col("u.k"), "uklo")})
+MaybeWrap(it) == IF it.a \in NumericAggs /\ (("e" \in DOMAIN it) => it.e \in {V, W}) /\ RandomElement(1..10) <= 3 THEN [it EXCEPT !.wrap = RandomElement(WrapPool)] ELSE it
+GenGroups(j) == {<<>>, <<K>>, <<V>>, <<K, V>>, <<Arith("+", V, Zero)>>, <<K, Arith("*", V, One)>>} \cup (IF j = "none" THEN {} ELSE {<<W>>, <<K, W>>})
+KeyItemOf(e) == IF e = K THEN ItE("key", K, "k") ELSE IF e = V THEN ItE("key", V, "v") ELSE ItE("key", W, "w")
+GenHavings(group) ==
+  {HAgg(CountStar, ">=", IntV(2)), HAgg(SumV, ">", IntV(1)), HAgg(CountV, "=", IntV(0)), HAgg(MaxOfV, "<", IntV(3)),
+   [h |-> "and", l |-> HAgg(CountStar, ">=", IntV(1)), r |-> HAgg(CountStar, "<=", IntV(2))],
+   [h |-> "or", l |-> HAgg(MinOfV, ">", IntV(1)), r |-> HAgg(SumV, "<", IntV(0))]}
+  \cup (IF \E i \in 1..Len(group) : group[i] = K
+        THEN {[h |-> "keynull", e |-> K, neg |-> TRUE], [h |-> "or", l |-> [h |-> "key", e |-> K, f |-> "=", c |-> A], r |-> HAgg(CountStar, ">", IntV(1))]} ELSE {})
+GenAgg(j) ==
+  LET group == RandomElement(GenGroups(j))
+      shown == SelectSeq(group, LAMBDA e : e \in {K, V, W} /\ RandomElement(1..10) <= 8)
+      keys == [i \in 1..Len(shown) |-> KeyItemOf(shown[i])]
+      aggs0 == SetSeq(RandomSubset(RandomElement(1..3), GenAggPool(j)))
+      aggs == [i \in 1..Len(aggs0) |-> MaybeWrap(aggs0[i])]
+      cut == RandomElement(0..Len(aggs))
+      having == IF RandomElement(1..10) <= 6 THEN NoH ELSE RandomElement(GenHavings(group))
+  IN Agg(SubSeq(aggs, 1, cut) \o keys \o SubSeq(aggs, cut + 1, Len(aggs)), group, GenWhere(j), having, RandomElement(1..10) <= 2, GenLimit(j), j)
+GenStmt(j) == IF RandomElement(1..10) <= 4 THEN GenSelect(j) ELSE GenAgg(j)
+GenMenuOf(n, joins) == {GenStmt(IF joins THEN RandomElement({"inner", "outer"}) ELSE "none") : i \in 1..n}
+GenMenu == GenMenuOf(400, FALSE)
+GenJoinMenu == GenMenuOf(300, TRUE)
 
 \* which open deviations made this behaviour differ from the Ideal meaning (batch, uninterrupted)
 IdealOut == SemResult(AllLines, jlines)
